@@ -19,7 +19,7 @@ WSEv ==
          isCreate == e.op \in {"create", "create_map", "create_maps", "create_slice"}
          got == (IF isCreate THEN ToSet(e.obs.newrow) ELSE ToSet(e.obs.changed)) \ keys
          \* an update whose write set is empty builds no statement: nothing changes
-         cols == got = (IF isCreate THEN exp ELSE exp)
+         cols == exp \subseteq got /\ got \subseteq (exp \cup Open(e.model, wr))
          rows == e.obs.others = <<>> /\ (isCreate => e.obs.changed = <<>>) /\ (~isCreate => e.obs.newrow = <<>>)
          now == \A i \in DOMAIN e.model :
                    (e.model[i].auto /\ e.model[i].name \in exp /\ ~isCreate) =>
